@@ -472,6 +472,7 @@ pub fn run(args: &[String]) -> Vec<String> {
     install_activity();
     let mut rng = Rng::new(seed);
     let mut out = Vec::new();
+    let mut hangs = 0usize;
     for i in 0..cases {
         let gseed = rng.next();
         let desc = {
@@ -510,6 +511,9 @@ pub fn run(args: &[String]) -> Vec<String> {
                     }
                 }
             };
+            if verdict.contains("(hang)") {
+                hangs += 1;
+            }
             out.push(format!(
                 "!graph #{i} seed={gseed} {} size={} order={} [{}]\t{verdict}\t{}",
                 if cfg.mt { "mt" } else { "st" },
@@ -518,6 +522,14 @@ pub fn run(args: &[String]) -> Vec<String> {
                 desc.trim(),
                 if verdict == "pass" { "" } else if cfg.mt { "mt-result" } else { "st-result" }
             ));
+            if hangs >= 3 {
+                break;
+            }
+        }
+        if hangs >= 3 {
+            // each hang costs its time-out and leaves stuck threads behind: three are enough to report
+            out.push(format!("# graphs stopped after {hangs} runs that did not return"));
+            break;
         }
     }
     rustradio::verif::set_callback(None);
